@@ -614,8 +614,9 @@ for _pid, _spec in PROPS.items():
     _spec["rules"].append({"run": rules_types.run_endderef, "floor": 15, "scope": "anchor-dirs"})
     _spec["explanation"] += ROUND10_TEXT
 _ADD10 = {
-    "C03": ([{"run": rules_path.run_maxstore, "floor": 3, "ctx": {"files_of": "C13"}}],
-            " MAXSTORE (see C13) for the queue the decoders read from."),
+    "C03": ([{"run": rules_path.run_maxstore, "floor": 3, "ctx": {"files_of": "C13"}}, {"run": rules_lin.run_shiftkeep, "floor": 3},
+             {"run": rules_path.run_roomcode, "floor": 4, "use_anchor_files": True}, {"run": rules_path.run_alignidle, "floor": 2, "use_anchor_files": True}],
+            " MAXSTORE (see C13) for the queue the decoders read from. SHIFTKEEP: relational analysis of mpt_queue_shift (the glue mpt_queue_recv runs after every decoder call): at its mpt_queue_crop(.., 0, n) either n <= _state.data.pos or the path established _state._ctx == 0 - the consumed bytes of an open block are the decoder's room for output. ROOMCODE: every exit of a decoder on the zero test of its room counter (the local whose zero test leads to MissingBuffer somewhere) reports MissingBuffer, never 'incomplete'. ALIGNIDLE: the alignment step that gives away room in the empty-message branch is guarded by a no-open-block test."),
     "C04": ([{"run": rules_ref.run_detachrelease, "floor": 1}],
             " GAPFILL (LINBUF) also covers the insert functions: the area they return for the caller to fill counts as written, every other byte by which the used length grew (the gap in front of an insert behind the end) was written by the call. DETACHRELEASE: where a detach implementation answers with another buffer, every path to that return released the caller's reference to the old one (mpt_refcount_lower / free / unref)."),
     "C06": ([{"run": rules_path.run_lazyread, "floor": 5, "use_anchor_files": True}],
